@@ -24,7 +24,8 @@ From GV Require Import Base.W64 Base.F64 Lua.Syntax Lua.Num Lua.Value Lua.Lib.
 Import ListNotations.
 Open Scope Z_scope.
 
-Inductive outcome := OBreak | OGoto (l : name) | OReturn (vs : list value) | OError (v : value).
+Inductive outcome := OBreak | OGoto (l : name) | OReturn (vs : list value) | OError (v : value)
+                   | OClose (e : option value).   (* coroutine.close: the whole coroutine is being unwound *)
 
 Inductive target := TCell (c : positive) | TGlobal (x : name) | TIdx (t k : value).
 Inductive tshape := TSVar (x : name) | TSIdx.
@@ -579,7 +580,7 @@ Definition resume_co (c : cfg) (id : positive) (args : list value) (k : list fra
   | CoActive | CoDead => go c (CRet [VBool false; VStr (lit "#costate")]) k
   end.
 
-Definition call_builtin (c : cfg) (b : builtin) (args : list value) (k : list frame) : res :=
+Definition call_builtin (c : cfg) (b : builtin) (args : list value) (lua : bool) (k : list frame) : res :=
   let ret (vs : list value) := go c (CRet vs) k in
   let badarg := rterr c (lit "badarg") k in
   match b with
@@ -596,7 +597,9 @@ Definition call_builtin (c : cfg) (b : builtin) (args : list value) (k : list fr
       | Some lvl =>
           let v' := match v with
                     | VStr s =>
-                        if lvl =? 1 then VStr (position_at (cline c) ++ s)
+                        (* level 1: the position where `error` was called — a position only
+                           exists when the caller is Lua code *)
+                        if lvl =? 1 then (if lua then VStr (position_at (cline c) ++ s) else v)
                         else if lvl =? 2 then
                           match caller_line k with Some l => VStr (position_at l ++ s) | None => v end
                         else v
@@ -608,9 +611,13 @@ Definition call_builtin (c : cfg) (b : builtin) (args : list value) (k : list fr
       match args with
       | [] => badarg
       | v :: r => if truthy v then ret args else
-                  match r with
-                  | [] => go c (CRaise (VStr ((lit "assertion failed!")))) k
-                  | m :: _ => go c (CRaise m) k
+                  (* the reference implementation raises the message through `error` at
+                     level 1: a string message (and the default one) gets the position of
+                     the call of `assert` when the caller is Lua code *)
+                  let m := match r with [] => VStr (lit "assertion failed!") | m :: _ => m end in
+                  match m with
+                  | VStr s => go c (CRaise (if lua then VStr (position_at (cline c) ++ s) else m)) k
+                  | _ => go c (CRaise m) k
                   end
       end
   | BSelect =>
@@ -885,8 +892,12 @@ Definition call_builtin (c : cfg) (b : builtin) (args : list value) (k : list fr
       | VCo id :: _ =>
           match co_get c id with
           | CoFresh _ | CoDead => goc c (CRet [VBool true]) k (cline c) (co_put c id CoDead)
-          | CoSusp kc _ => if has_scope kc then inr (FUnsupported 32)
-                           else goc c (CRet [VBool true]) k (cline c) (co_put c id CoDead)
+          | CoSusp kc _ =>
+              if has_scope kc
+              then (* close the pending to-be-closed values of the coroutine, innermost first,
+                      ignoring its protected calls; the result is delivered at KCoBottom *)
+                   goc c (COut (OClose None)) (kc ++ KCoBottom id (cline c) :: k) (cline c) (co_put c id CoActive)
+              else goc c (CRet [VBool true]) k (cline c) (co_put c id CoDead)
           | CoActive => rterr c (lit "costate") k
           end
       | _ => badarg
@@ -905,7 +916,7 @@ Definition step_call (c : cfg) (f : value) (args : list value) (lua : bool) (k :
                 (KCallB (cline c) lua :: k) s
       | None => inr (FStuck 2)
       end
-  | VBuiltin b => call_builtin c b args k
+  | VBuiltin b => call_builtin c b args lua k
   | _ =>
       match metamethod (sto c) f ((lit "__call")) with
       | VNil => rterr c (lit "call") k
@@ -989,7 +1000,7 @@ Definition step_exp (c : cfg) (e : exp) (ρ : env) (k : list frame) : res :=
 (* leaving the scope of a to-be-closed value: call its __close metamethod with the
    value and the error in flight (nil if none); the exit p resumes afterwards *)
 Definition close_scope (c : cfg) (v : value) (p : pend) (k : list frame) : res :=
-  let e := match p with POut (OError e) => e | _ => VNil end in
+  let e := match p with POut (OError e) | POut (OClose (Some e)) => e | _ => VNil end in
   match metamethod (sto c) v ev_close with
   | VNil => rterr c (lit "call") k
   | h => go c (CCall h [v; e] true) (KClosing p :: k)
@@ -1092,8 +1103,16 @@ Definition step_out (c : cfg) (o : outcome) (fr : frame) (k : list frame) : res 
       | KPcall _ | KHandler | KCoBottom _ _ => inr (FStuck 9)
       | _ => go c (COut o) k
       end
+  | OClose e =>
+      match fr with
+      | KCoBottom id saved =>
+          goc c (CRet (match e with None => [VBool true] | Some v => [VBool false; v] end)) k saved (co_put c id CoDead)
+      | KCallB saved _ => gol c (COut o) k saved
+      | _ => go c (COut o) k
+      end
   | OError v =>
       match fr with
+      | KClosing (POut (OClose _)) => go c (COut (OClose (Some v))) k
       | KPcall _ => go c (CRet [VBool false; v]) k
       | KCallB saved _ => gol c (COut o) k saved
       | KCoBottom id saved => goc c (CRet [VBool false; v]) k saved (co_put c id CoDead)
